@@ -114,10 +114,11 @@ CHECKS["C09"] = dict(
     jobs=[
         dict(pkg="internal/cc", entry="HC09Adapter", params=dict(n=3, kind=0), thorough=dict(params=dict(n=4), timeout=3000)),
         dict(pkg="internal/cc", entry="HC09Adapter", params=dict(n=3, kind=1), thorough=dict(params=dict(n=4), timeout=3000)),
+        dict(pkg="internal/cc", entry="HC09RFC8888", params=dict(nbases=1), require_covers=["decoded"], thorough=dict(params=dict(nbases=2), timeout=3000)),
     ],
-    bounds=dict(quick="gcc FeedbackAdapter: 3 covered sequence numbers + 1 beyond the declared range, every subset of them known to the history, base 10 or 65534 (wrap), one status-vector chunk (2-bit symbols, padded to 7) with every symbol combination / one run-length chunk of each symbol; symbolic deltas (small 0..255, large int16), sizes, departure times, reference time",
+    bounds=dict(quick="gcc FeedbackAdapter: 3 covered sequence numbers + 1 beyond the declared range, every subset of them known to the history, base 10 or 65534 (wrap), one status-vector chunk (2-bit symbols, padded to 7) with every symbol combination / one run-length chunk of each symbol; symbolic deltas (small 0..255, large int16), sizes, departure times, reference time. RFC 8888 path: two streams x 3 sent packets (every membership subset of the first stream), one report block per stream starting at 65535 (wrap), symbolic received flags, ECN, 13-bit arrival offsets and report timestamp: each ack == (recorded size/departure, encoded arrival = reference - offset/1024 s, ECN), nothing else acknowledged",
                 thorough="4 covered numbers"),
-    outside=["more than one chunk per feedback", "LRU eviction at size 250 (membership is chosen directly)", "rtpfb history / RFC 8888 path", "feedback produced by the library's own generators (composition)"],
+    outside=["more than one chunk per feedback", "LRU eviction at size 250 (membership is chosen directly)", "rtpfb history and its CCFB conversion", "feedback produced by the library's own generators (composition)"],
     assumptions=["container/list executed from SSA", "time.Time 96-bit model"],
 )
 
